@@ -189,7 +189,11 @@ def concretise(prog, pid, rnd, opts):
     for d in dials:
         r = d["reply"]
         if r["mode"] == "std":
-            rep = dict(mode="std", status=r["status"], reason="", upg=r["upg"], con=r["con"], acc=r["acc"], blen=r["blen"],
+            def _tok(lines):
+                # replace the placeholder token "foo" by a random token over the whole tchar alphabet
+                from .upgrade import rand_token
+                return [[(rand_token(rnd) if t == "foo" else t) for t in l] for l in lines]
+            rep = dict(mode="std", status=r["status"], reason="", upg=_tok(r["upg"]), con=_tok(r["con"]), acc=r["acc"], blen=r["blen"],
                        cl=r["cl"], ext=EXT_VALUES[r["ext"]], sub="", sep=rnd.choice(SEPS), extra=[], hex="", cut=-1, tail="")
             if c["subs"] and rnd.random() < 0.5:
                 rep["sub"] = c["subs"][0]
